@@ -97,3 +97,122 @@ class StubSignatureProvider:
 
     def info(self):
         return "<stub signature provider>"
+
+
+# ------------------------------------------------------------------------------------------------
+_CLS = {}
+CURVE_BY_LEN = {64: "secp256r1", 96: "secp384r1", 132: "secp521r1"}
+COORD = {"secp256r1": 32, "secp384r1": 48, "secp521r1": 66}
+KEYBITS = {"secp256r1": 256, "secp384r1": 384, "secp521r1": 521}
+
+
+def classes():
+    """Stub subclasses of the real spsdk key / provider classes (created after the loader is active so that the
+    analysed code's isinstance() checks accept them)."""
+    if _CLS:
+        return _CLS
+    from spsdk.crypto.keys import PublicKeyEcc, PublicKeyRsa
+    from spsdk.crypto.signature_provider import SignatureProvider
+    from .sbytes import from_bytes
+
+    class StubEcc(PublicKeyEcc):
+        """ECC public key with symbolic coordinates; export(NXP) = X||Y fixed width; parse is its inverse."""
+
+        def __init__(self, x, y, curve="secp256r1"):
+            self._x, self._y, self._curve = x, y, curve
+            self.key = None
+
+        x = property(lambda s: s._x)
+        y = property(lambda s: s._y)
+        curve = property(lambda s: s._curve)
+        coordinate_size = property(lambda s: COORD[s._curve])
+        key_size = property(lambda s: KEYBITS[s._curve])
+        signature_size = property(lambda s: 2 * COORD[s._curve])
+
+        def export(self, encoding=None):
+            n = COORD[self._curve]
+            xb = self._x.to_bytes(n, "big")
+            yb = self._y.to_bytes(n, "big")
+            return SymBytes.make(items_of(xb) + items_of(yb))
+
+        def ident(self):
+            return items_of(self.export())
+
+        def verify_signature(self, signature, data, *a, **k):
+            exp = stubs.uf("SIGN", [self.ident(), items_of(data)], self.signature_size)
+            stubs.record("verify", key=self.ident(), data=items_of(data), signature=items_of(signature))
+            return bool(SymBytes(exp).eq_term(items_of(signature)))
+
+        @classmethod
+        def parse(cls, data):
+            d = items_of(data)
+            curve = CURVE_BY_LEN[len(d)]
+            n = len(d) // 2
+            return cls(from_bytes(d[:n], "big"), from_bytes(d[n:], "big"), curve)
+
+        def __eq__(self, o):
+            return isinstance(o, StubEcc) and self._curve == o._curve and bool(SymBytes(self.ident()).eq_term(o.ident()))
+
+        def __hash__(self):
+            return 7
+
+        def __repr__(self):
+            return f"<stub ECC {self._curve}>"
+
+        __str__ = __repr__
+
+    class StubRsa(PublicKeyRsa):
+        def __init__(self, n, e, bits):
+            self._n, self._e, self._bits = n, e, bits
+            self.key = None
+
+        n = property(lambda s: s._n)
+        e = property(lambda s: s._e)
+        key_size = property(lambda s: s._bits)
+        signature_size = property(lambda s: s._bits // 8)
+
+        def ident(self):
+            return items_of(self._n.to_bytes(self._bits // 8, "big")) + items_of(lift_bytes(self._e, 4))
+
+        def export(self, encoding=None, exp_length=None, modulus_length=None):
+            return SymBytes.make(self.ident())
+
+        def verify_signature(self, signature, data, *a, **k):
+            exp = stubs.uf("SIGN", [self.ident(), items_of(data)], self.signature_size)
+            return bool(SymBytes(exp).eq_term(items_of(signature)))
+
+        def __repr__(self):
+            return f"<stub RSA {self._bits}>"
+
+        __str__ = __repr__
+
+    def lift_bytes(v, n):
+        return v.to_bytes(n, "big")
+
+    class StubSP(SignatureProvider):
+        identifier = "symx-stub"
+
+        def __init__(self, ident, sig_len):
+            self.ident = list(items_of(ident))
+            self._len = sig_len
+            self.calls = []
+
+        @property
+        def signature_length(self):
+            return self._len
+
+        def sign(self, data):
+            self.calls.append(items_of(data))
+            return SymBytes.make(stubs.uf("SIGN", [self.ident, items_of(data)], self._len))
+
+        def get_signature(self, data, encoding=None):
+            return self.sign(data)
+
+        def verify_public_key(self, public_key):
+            return True
+
+        def try_to_verify_public_key(self, public_key):
+            return None
+
+    _CLS.update(StubEcc=StubEcc, StubRsa=StubRsa, StubSP=StubSP)
+    return _CLS
